@@ -17,7 +17,7 @@ RULE = ('every orbital count within dense reach x both build paths x coefficient
         'EVERY one-hot coefficient tensor t=e_ij, v=e_ijkl (complete term alphabet); gauge transform: every L, every rotated pair i, '
         '5 unitaries x 2 coefficient kinds; non-trivial = L >= 2')
 BUDGET = {'quick': 500, 'thorough': 3600}
-KINDS = ['real', 'complex', 'symmetric', 'zero_padded', 'sparse']
+KINDS = ['real', 'complex', 'symmetric', 'zero_padded', 'sparse', 'mixed_rc', 'mixed_cr', 'mixed_int']
 
 
 def coeffs(rng, L, kind):
@@ -38,6 +38,12 @@ def coeffs(rng, L, kind):
         t[-1, :] = 0; t[:, -1] = 0
         v[-1] = 0; v[:, -1] = 0; v[:, :, -1] = 0; v[:, :, :, -1] = 0
         return t, v
+    if kind == 'mixed_rc':      # real one-body, complex two-body tensor
+        return rng.normal(size=(L, L)), rng.normal(size=(L,) * 4) + 1j * rng.normal(size=(L,) * 4)
+    if kind == 'mixed_cr':
+        return rng.normal(size=(L, L)) + 1j * rng.normal(size=(L, L)), rng.normal(size=(L,) * 4)
+    if kind == 'mixed_int':     # integer one-body tensor, float two-body tensor
+        return rng.integers(-3, 4, size=(L, L)), rng.normal(size=(L,) * 4)
     if kind == 'sparse':
         t, v = rng.normal(size=(L, L)), rng.normal(size=(L,) * 4)
         t = np.where(rng.uniform(size=t.shape) < 0.4, t, 0)
